@@ -110,6 +110,9 @@ func checkC05(c *Ctx) {
 	c.guardedByInfer(false)
 	c.confinementAndPublication()
 	c.pruneGuards()
+	// one connection's (un)subscribe must not tear the shared tree under another's lookup: a concurrent map write is
+	// a fatal error of the whole process
+	c.topicStoreLocking()
 	teardownOrder(c, "C05")
 	c.everyPacketDecoded()
 	c.flagBitTables()
